@@ -7,6 +7,22 @@ CHECKS = {
    note="Trusts go/ssa lowering, the engine's operator encoding (validated every run by replaying solver models through the native build), z3, and the amd64 model of out-of-range float->int conversions.",
    technique="symbolic execution of go/ssa + SMT (QF_BV/FP) per instantiation, native replay of models",
    design="5/C10"),
+
+ "C18": dict(
+   text="Bounded model checking of the real stream-to-logger adapter (subprocess.logStreamer.Write, executed from go/ssa): a stream of n<=5 (thorough 7) fully symbolic bytes is written in 2 (and 3) chunks at every offset; z3 decides, for all byte values, that Write returns (len,nil), that the concatenated messages equal the stream minus newlines, that streams are not mixed, and that messages are exactly the non-empty lines -- the last fails inside the recorded known-finding region (chunk boundary strictly inside a line) and is proved outside it.",
+   note="Only the adapter kernel of the property: real pipes, os/exec, exit statuses and message ordering in Execute are outside this check (not encodable: OS processes). logs.Loggers is a recording double.",
+   technique="symbolic execution of go/ssa + SMT (QF_BV) over symbolic byte strings, native replay",
+   design="5/C18"),
+ "C19": dict(
+   text="Bounded exhaustive symbolic exploration of the real paginators (AbstractPaginator, dynamic, static, stream; real context, cancel store, atomic, virtual clock): every partition of a collection into 1..3 pages of 0..2 items, every script of <=3 (thorough 5) HasNext/GetNext/Stop/Close/cancel operations followed by a drain, constructor failures, a transient fetch failure at every page, and stream paginators with future pages and DryUp at every point; assertions: items exactly once in order, HasNext idempotent and exact, nothing after stop, failures reported.",
+   note="Inputs of this property are finite structures, so paths are decided mostly by concrete branching; the solver only confirms path feasibility. Page/iterator objects are harness doubles; time is a virtual clock.",
+   technique="symbolic execution of go/ssa with DFS over free choices (bounded model checking), native replay",
+   design="5/C19"),
+ "C20": dict(
+   text="Bounded model checking of hashingAlgo.CalculateWithContext/Calculate/CalculateStringHash with the whole safeio/contextio/io.Copy chain executed from real source: histories of 1..2 (thorough 3) calculations on one hasher, each with 0..2 (3) symbolic content bytes, every chunking of the reader, and outcome success / read failure at byte k / cancellation at byte k; z3 decides that every successful calculation's digest is the digest of exactly its own content whatever preceded it.",
+   note="The compression function is abstracted by an injective recording hash.Hash double (digest = bytes since last Reset), which makes the claim algorithm-independent; the real MD5/SHA/BLAKE2/xxhash/murmur code is not encoded.",
+   technique="symbolic execution of go/ssa + SMT (QF_BV), native replay",
+   design="5/C20"),
 }
 NA = {}
 def main():
